@@ -2,7 +2,11 @@ PROP = {
     "level": "exploration",
     "technique": ("runtime monitors: (1) lattice run of the real LinearFeeFunction with per-call invariants; (2) real "
                   "TxPublisher driven block by block with a recording wallet that judges every transaction handed to "
-                  "testmempoolaccept / publish against exact integer re-computation of fee, weight, dust and budget"),
+                  "testmempoolaccept / publish against exact integer re-computation of fee, weight, dust and budget; "
+                  "(3) real UtxoSweeper round (updateSweeperInputs / sweepPendingInputs / sweep) over the real "
+                  "BudgetAggregator in front of the real TxPublisher: the fee function and every transaction of a "
+                  "regrouped request are judged against the rate each of its inputs was already offered at and the "
+                  "budgets attached to the inputs"),
     "level_text": ("Fee function: 4e5 (quick) / 1e8 (thorough) generated (ending rate, conf target 0..3000, estimator "
                    "answer incl. below floor / above max / error, explicit start, block pattern) runs; after every "
                    "Increment/IncreaseFeeRate: never decreases, never above the ending rate, start >= relay floor, "
@@ -11,17 +15,28 @@ PROP = {
                    "mempool/publish answers, skipped/repeated heights, third-party/own spends); every tx handed to the "
                    "wallet: fee <= budget, fee*1000 <= MaxFeeRate*weight(signed tx), all inputs exactly once, no output "
                    "below dust, published replacements non-decreasing in fee rate, fee function at its ceiling from "
-                   "deadline-1 on."),
+                   "deadline-1 on. Regroup: 4e4 / 4e6 generated populations of 2-10 pending inputs (1-3 deadlines, "
+                   "mixed budgets, Immediate, locktimes, exclusive groups, required outputs, no-deadline params, "
+                   "MaxInputsPerTx 2..100, wallet utxos; about half the inputs carry the rate of an earlier attempt, "
+                   "recorded through the sweeper's own markInputsPublishFailed or set like mempool RBFInfo) swept by one "
+                   "real sweeper round and then taken to deadline-1 and the deadline; for every input already offered "
+                   "at r: the new request's fee function and every tx spending it offer >= min(r, ceiling of the request); "
+                   "every tx: fee <= sum of the budgets of the inputs it spends, all inputs of the request exactly once."),
     "level_note": ("Sampled. Inputs are harness inputs with real StandardWitnessTypes whose witnesses are crafted at the "
                    "type's size upper bound (worst-case signatures), so the signed weight equals lnd's estimate; shorter "
-                   "real signatures raise the effective rate by <1% and are not modelled. The sweeper's aggregator / "
-                   "retry loop above the publisher is not driven (BudgetInputSet is). CPFP parents are not generated "
-                   "(the bumper's fee ignores them)."),
+                   "real signatures raise the effective rate by <1% and are not modelled. The sweeper's grouping path is "
+                   "driven for one round per population (states as left by a failed publish are generated, the result "
+                   "loop publisher -> sweeper -> regroup over several rounds is not). The ceiling of a regrouped request "
+                   "uses a BIP-141 weight model written in the harness (calibrated as a diagnostic against every tx "
+                   "built) with 8 wu + 1 sat/kw slack. CPFP parents are not generated (the bumper's fee ignores them)."),
     "design_ref": "DESIGN.md §3 C18",
     "rule": ("fee function: distinct (block pattern, width bucket, explicit start?, domain class, ending-rate bucket); "
              "publisher: a case is non-trivial when at least one tx was handed to the wallet; distinct (#inputs, "
              "#required outputs, via input set, wallet top-up, #published bucket, #replaced, #failed, #unknown-spend, "
-             "change script type, aux output)."),
+             "change script type, aux output); regroup: a population is non-trivial when the sweeper built at least "
+             "one request; distinct (#inputs bucket, #requests, MaxInputsPerTx, request mixing different earlier "
+             "rates, earlier rate above the ceiling, wallet top-up, locktimes, exclusive, immediate, #requests with "
+             "tx bucket, #failed)."),
     "assumptions": [
         "required outputs / aux outputs supplied by the caller are themselves not dust",
         "witnesses have the size upper bound of their witness type",
@@ -54,6 +69,26 @@ PROP = {
                              "oracle_pub_dust_evals": 5000000, "oracle_pub_inputs_evals": 5000000,
                              "oracle_pub_monotone_evals": 1500000, "oracle_pub_ceiling_evals": 2000000,
                              "pub_cases_with_replacement": 360000, "pub_with_wallet_topup": 135000},
+            },
+        },
+        {
+            "name": "regroup", "pkg": "sweep", "test": "TestVerifC18Regroup",
+            "files": ["sweep/c18_test.go"],
+            "shards": {"quick": 8, "thorough": 16},
+            "floors": {
+                "quick": {"cases": 20000, "regroup_requests": 50000, "regroup_requests_multi_input": 23000,
+                          "regroup_requests_mixed_last_offered": 6500, "regroup_requests_with_tx": 43000,
+                          "regroup_requests_with_wallet_topup": 7000, "regroup_inputs_marked_publish_failed": 47000,
+                          "regroup_fee_functions": 50000, "oracle_regroup_monotone_evals": 490000,
+                          "regroup_monotone_ceiling_corner_evals": 30000, "oracle_regroup_budget_evals": 300000,
+                          "oracle_regroup_inputs_evals": 300000},
+                "thorough": {"cases": 2000000, "regroup_requests": 5000000, "regroup_requests_multi_input": 2300000,
+                             "regroup_requests_mixed_last_offered": 650000, "regroup_requests_with_tx": 4300000,
+                             "regroup_requests_with_wallet_topup": 700000,
+                             "regroup_inputs_marked_publish_failed": 4700000, "regroup_fee_functions": 5000000,
+                             "oracle_regroup_monotone_evals": 49000000,
+                             "regroup_monotone_ceiling_corner_evals": 3000000,
+                             "oracle_regroup_budget_evals": 30000000, "oracle_regroup_inputs_evals": 30000000},
             },
         },
     ],
